@@ -19,7 +19,8 @@ RULE = ("programs: sequences over the random-consuming APIs (rand/randn/normal/r
         "drawn junk allocations / unrelated imports before the library is imported, (3) for the fixed-data part "
         "across 1..5 repetitions inside one process; different seeds must give different digests for programs "
         "that draw.  non-trivial: >=2 different random APIs and a backward through fan-out (the fixed part or a "
-        "training step); distinct by hash of the program")
+        "training step); distinct by hash of the program"
+        " Also: every program compared across fresh processes ends with a sweep over all random-consuming entry points (incl. a zero-width Linear); freed memory is poisoned with a run-specific value before every run so that uninitialised buffers differ between runs.")
 ASSUMPTIONS = ["BLAS threads pinned to 1 in every process (the property is about synapgrad, not OpenBLAS scheduling)",
                "'all allocation layouts' is sampled (hash seeds x allocation perturbations), not enumerated"]
 
